@@ -193,6 +193,21 @@ def rule_r1_index_spaces(prog: Program, col: Collector) -> None:
         col.assume(f"R1 exception {k[0]} indexed by {k[1]}: {v}")
     NEC = ("an array sized for one index space and indexed by another overflows (IndexError) or silently aliases entries: "
            "a RANK-sized id->rank table indexed by metacoalition ids fails for every limit below the number of coalitions - 1")
+    # a tabled attribute is ONE array: every binding of it, in any method and on any branch, is an allocation for the same spaces
+    for mname, mref in sp.methods.items():
+        for e in fterms(prog, mref).of_kind("store"):
+            if e.obj == SELF and e.attr in sp.attr_alloc and e.index is None and e.value != sp.attr_defs[e.attr]:
+                other = sp.alloc_spaces(e.value, None)
+                if mname != "__init__" and (is_call_to(e.value, "numpy.load", "numpy.maximum", "numpy.clip") or other is None and e.value[0] in ("bin", "attr", "index", "call")):
+                    continue        # re-bindings after construction (load, clipping, arithmetic on the attribute itself) keep the shape
+                if other is None:
+                    col.undecidable(mref.where(e.node), mref.short,
+                                    f"{e.attr} is also bound to {short(e.value, 60)}: not a NumPy allocation whose index space is understood "
+                                    f"(the first binding is allocated for {'x'.join(map(str, sp.attr_alloc[e.attr]))})")
+                else:
+                    col.check(other == sp.attr_alloc[e.attr], mref.where(e.node), mref.short,
+                              f"every binding of {e.attr} is allocated for {'x'.join(map(str, sp.attr_alloc[e.attr]))} (this one: {'x'.join(map(str, other))})",
+                              construct=f"rebinding-space:{e.attr}", necessity=NEC)
     self_calls = {n.func.attr for r in sp.methods.values() for n in ast.walk(r.node)
                   if isinstance(n, ast.Call) and isinstance(n.func, ast.Attribute) and isinstance(n.func.value, ast.Name) and n.func.value.id == "self"}
     for name, ref in sp.methods.items():
